@@ -7,8 +7,10 @@ import SquidModel.SBuf.Model
 
 namespace SquidModel.SBuf
 
-/-- a `char` converted to `int` (x86: signed) -/
-def charToInt (ch : UInt8) : Int := if ch.toNat ≥ 128 then (ch.toNat : Int) - 256 else ch.toNat
+/-- the `int` the comparison loops work with: a plain `char` (x86: signed) converted to int in the pinned snapshot,
+    an `unsigned char` where the code casts -/
+def charToInt (ch : UInt8) : Int :=
+  if Gen.SBufConsts.plainCharCompare ∧ ch.toNat ≥ 128 then (ch.toNat : Int) - 256 else ch.toNat
 
 /-- glibc `tolower(int)` in the C locale on the value of a (signed) `char`:
     the table is indexed from -128; entries -128..-2 mirror 128..254, entry -1 is EOF and stays -1 -/
@@ -32,7 +34,7 @@ def memcasecmp : Bytes → Bytes → Int
 /-- the bytes left by chop(pos, n) (also substr) when no wrap-around occurs in `pos+n`; see `chop` for the object -/
 def chopBytes (a : Bytes) (pos n : Nat) : Bytes :=
   let pos := if pos = npos ∨ pos > a.length then a.length else pos
-  let n := if n = npos ∨ (pos + n) % W > a.length then a.length - pos else n
+  let n := if n = npos ∨ chopOver pos n a.length then a.length - pos else n
   if pos = a.length ∨ n = 0 then [] else (a.drop pos).take n
 
 /-- SBuf::compare(const SBuf &S, isCaseSensitive, npos) -/
